@@ -21,7 +21,7 @@ from ..prov import FuncFacts
 from ..resolve import Ctx, calls_in
 from ..wire import InitFlow
 from ..cfg import guards_of
-from .common import inline_locals
+from .common import inline_locals, returns_of
 
 FIXTURES = os.path.join(os.path.dirname(os.path.dirname(os.path.abspath(__file__))), "fixtures")
 
@@ -46,6 +46,7 @@ def check(chk):
     _pure_rebuild(chk)
     _alias(chk)
     _codec(chk)
+    _plain_attrs(chk)
     # per-element transformers are stored under "0", "1", ...: rebuilding walks them in list order
     from .common import index_key_order
     index_key_order(chk, "SERIAL.index_keys", ("transformers",))
@@ -545,6 +546,59 @@ def _in_try_catching(f, node, needed: set[str]) -> bool:
             if "Exception" in caught or "BaseException" in caught or needed <= caught:
                 return True
     return False
+
+
+def _plain_attrs(chk):
+    """SERIAL.plain - what a transformer lists in get_serialization_attrs() is written either as a data node (DataArray /
+    Dataset / dict of them) or as a node attribute, and node attributes must survive json.dumps (zarr) and the netCDF
+    attribute codec: str / number / bool / None / list / tuple / dict of those.  ``<obj>.dims`` (and ``.sizes``) of a value
+    that may be a Dataset is a mapping proxy, not a tuple: stored raw it makes json.dumps raise for every model fitted on
+    a Dataset.  The value must be converted (tuple(...) / list(...) / dict(...))."""
+    pm = chk.pm
+    dt_mod = pm.modules.get("xeofs.utils.data_types")
+    chk.require(dt_mod is not None, "xeofs/utils/data_types.py vanished")
+    # aliases that admit a Dataset
+    ds_alias = {"Dataset", "DataSet"}
+    changed = True
+    while changed:
+        changed = False
+        for name, val in dt_mod.assigns.items():
+            if name in ds_alias:
+                continue
+            names = {n.id for n in ast.walk(val) if isinstance(n, ast.Name)} | {n.attr for n in ast.walk(val) if isinstance(n, ast.Attribute)}
+            if names & ds_alias and not any(isinstance(n, ast.Subscript) and isinstance(n.value, ast.Name) and n.value.id == "list" for n in ast.walk(val)):
+                ds_alias.add(name)
+                changed = True
+    n = 0
+    for cls in pm.classes.values():
+        gsa = cls.methods.get("get_serialization_attrs")
+        if gsa is None:
+            continue
+        listed = set()
+        for r in returns_of(gsa):
+            if isinstance(r.value, ast.Call) and isinstance(r.value.func, ast.Name) and r.value.func.id == "dict":
+                listed |= {k.arg for k in r.value.keywords if k.arg}
+            elif isinstance(r.value, ast.Dict):
+                listed |= {const_str(k) for k in r.value.keys if k is not None and const_str(k)}
+        for m in cls.methods.values():
+            may_ds = set()
+            a = m.node.args
+            for arg in a.posonlyargs + a.args + a.kwonlyargs:
+                ann = {x.id for x in ast.walk(arg.annotation) if isinstance(x, ast.Name)} if arg.annotation is not None else None
+                if ann is None or ann & ds_alias:
+                    may_ds.add(arg.arg)
+            may_ds.discard("self")
+            for st in walk_no_nested(m.node):
+                tgt = st.targets[0] if isinstance(st, ast.Assign) and len(st.targets) == 1 else st.target if isinstance(st, ast.AnnAssign) and st.value is not None else None
+                if tgt is None or not is_self_attr(tgt) or tgt.attr not in listed:
+                    continue
+                v = st.value
+                n += 1
+                raw = isinstance(v, ast.Attribute) and v.attr in ("dims", "sizes", "indexes", "xindexes", "data_vars", "variables") and isinstance(v.value, ast.Name) and v.value.id in may_ds
+                chk.check(not raw, "SERIAL.plain", m, st, construct=f"{cls.name}: self.{tgt.attr} holds a plain value",
+                          why=f"{cls.name}.{m.name} stores `{norm(v)}` as it is; for a Dataset this is a mapping proxy, which is written as a node attribute and makes the JSON "
+                              "encoding of the attributes (zarr) raise for every model fitted on a Dataset - convert it (tuple(...))")
+    chk.require(n >= 10, f"SERIAL.plain: only {n} assignments of serialised attributes found")
 
 
 def _codec(chk):
